@@ -120,6 +120,11 @@ def norowid(wd, rng, page_size=512, rows=600, tag="wr"):
     for n in range(36):
         k = bytes([7] * (page_size // 4)) + bytes([(n * 37 + j) % 256 for j in range(20 + (n % 5) * page_size // 8)])
         c.execute("INSERT INTO wb VALUES(?,?,?)", (k, "t" * (n % 3) * (page_size // 3) + str(n), n % 9))
+    # the primary key declared LAST: the stored order (key columns first) is a rotation of the declared order, and the long column
+    # that is declared first is stored last, beyond the part of the row kept in the page
+    c.execute("CREATE TABLE wd(body TEXT, title TEXT, extra, id INT, PRIMARY KEY(id, title)) WITHOUT ROWID")
+    for n in range(24):
+        c.execute("INSERT INTO wd VALUES(?,?,?,?)", ("body%d " % n + "b" * ((n % 4) * page_size // 2), "title%d" % (n % 5), n * 1.5 if n % 3 else None, n))
     # a text primary key under NOCASE and a second key column under RTRIM: the primary key values an indexed select copies from
     # each index entry into its lookup key are compared under those collations, entry after entry, through one key object
     c.execute("CREATE TABLE wn(k TEXT COLLATE NOCASE, r TEXT COLLATE RTRIM, n INT, t, PRIMARY KEY(k, r)) WITHOUT ROWID")
@@ -134,6 +139,7 @@ def norowid(wd, rng, page_size=512, rows=600, tag="wr"):
     c.execute("COMMIT")
     c.close()
     db = DB(path, page_size, tag)
+    db.tables["wd"] = dict(kind="norowid", cols=["body", "title", "extra", "id"], pk=[("id", "", False), ("title", "", False)])
     db.tables["wn"] = dict(kind="norowid", cols=["k", "r", "n", "t"], pk=[("k", "nocase", False), ("r", "rtrim", False)])
     db.indexes["wn_n"] = dict(table="wn", cols=[("n", "", False)])
     db.tables["wb"] = dict(kind="norowid", cols=["k", "t", "n"], pk=[("k", "", False), ("t", "", False)])
